@@ -380,6 +380,19 @@ impl<C: Cfg> World<C> {
         let forget_iter = op.forget_iter && self.spec.allow_forget;
         let _ = write!(tr, ", consume \"{}\" sinks {:?}{})", pat, sinks, if forget_iter { " then FORGET" } else { "" });
 
+        {
+            // will the operation panic by itself? (invalid range / result beyond a fixed capacity)
+            let will_exceed = match (want_range, self.flav[v].fixed_cap()) {
+                (Some((a, b)), Some(c)) if op.splice && !forget_iter => len - (b - a) + (repl_payloads.len() as isize + op.lie).max(0) as usize > c,
+                _ => false,
+            };
+            if want_range.is_none() || will_exceed {
+                self.self_panicking_op();
+            }
+        }
+        if crate::world::trace_live() {
+            eprintln!("     range op: {}", &tr[tr.len().saturating_sub(200)..]);
+        }
         let n_items = want_range.map(|(a, b)| b - a).unwrap_or(0);
         let mut seen: Vec<(bool, Option<u32>)> = Vec::with_capacity(op.calls.len() + 1);
         let mut owned: Vec<C::T> = Vec::with_capacity(op.calls.len() + 1);
